@@ -23,6 +23,12 @@ Three ingredients:
   all inventoried sites of a modelled function must be in the list;
 * the property oracle of stream `ops.total`, which runs every public operation under `recover`
   on statements of odd shape (correspondence side).
+
+`Rewrite` (13 assertions on what a caller-supplied `Rewriter` answers) is `Model/RewriteChecked.lean`:
+no panic under the contract `KindPreserving`, a panic at each site without it; its type switch is
+compared with the regenerated `Gen.rewriteSwitch`. The protobuf codec of `Sources` (3 sites) is
+`Model/SourcesCodecChecked.lean`; there the property fails: `Sources.MarshalBinary` panics on the
+sources of `SELECT a FROM (SELECT a FROM m)` (`marshalBinary_panics_on_parsed_statement`).
 -/
 namespace InfluxQL.C13
 open InfluxQL Gen
@@ -40,19 +46,19 @@ def reviewedSites : List (String × String × String) := [
   ("Fields.Less", "index", "a[j]"),  -- sort.Interface: indices come from package sort
   ("Fields.Swap", "index", "a[i]"),  -- sort.Interface
   ("Fields.Swap", "index", "a[j]"),  -- sort.Interface
-  ("Rewrite", "assert", "Rewrite(r, d).(*Dimension)"),  -- each case of Rewrite returns a node of the static type it was given; a Rewriter that changes node kinds is a caller error
-  ("Rewrite", "assert", "Rewrite(r, expr).(Expr)"),  -- each case of Rewrite returns a node of the static type it was given; a Rewriter that changes node kinds is a caller error
-  ("Rewrite", "assert", "Rewrite(r, f).(*Field)"),  -- each case of Rewrite returns a node of the static type it was given; a Rewriter that changes node kinds is a caller error
-  ("Rewrite", "assert", "Rewrite(r, n.Dimensions).(Dimensions)"),  -- each case of Rewrite returns a node of the static type it was given; a Rewriter that changes node kinds is a caller error
-  ("Rewrite", "assert", "Rewrite(r, n.Expr).(Expr)"),  -- each case of Rewrite returns a node of the static type it was given; a Rewriter that changes node kinds is a caller error
-  ("Rewrite", "assert", "Rewrite(r, n.Fields).(Fields)"),  -- each case of Rewrite returns a node of the static type it was given; a Rewriter that changes node kinds is a caller error
-  ("Rewrite", "assert", "Rewrite(r, n.LHS).(Expr)"),  -- each case of Rewrite returns a node of the static type it was given; a Rewriter that changes node kinds is a caller error
-  ("Rewrite", "assert", "Rewrite(r, n.RHS).(Expr)"),  -- each case of Rewrite returns a node of the static type it was given; a Rewriter that changes node kinds is a caller error
-  ("Rewrite", "assert", "Rewrite(r, n.Sources).(Sources)"),  -- each case of Rewrite returns a node of the static type it was given; a Rewriter that changes node kinds is a caller error
-  ("Rewrite", "assert", "Rewrite(r, n.Statement).(*SelectStatement)"),  -- each case of Rewrite returns a node of the static type it was given; a Rewriter that changes node kinds is a caller error
-  ("Rewrite", "assert", "Rewrite(r, n.Statements).(Statements)"),  -- each case of Rewrite returns a node of the static type it was given; a Rewriter that changes node kinds is a caller error
-  ("Rewrite", "assert", "Rewrite(r, s).(Statement)"),  -- each case of Rewrite returns a node of the static type it was given; a Rewriter that changes node kinds is a caller error
-  ("Rewrite", "assert", "cond.(Expr)"),  -- each case of Rewrite returns a node of the static type it was given; a Rewriter that changes node kinds is a caller error
+  ("Rewrite", "assert", "Rewrite(r, d).(*Dimension)"),  -- safe iff the Rewriter answers each node with a node of the same interface kind (rewrite_no_panic / rewrite_needs_contract)
+  ("Rewrite", "assert", "Rewrite(r, expr).(Expr)"),  -- safe iff the Rewriter answers each node with a node of the same interface kind (rewrite_no_panic / rewrite_needs_contract)
+  ("Rewrite", "assert", "Rewrite(r, f).(*Field)"),  -- safe iff the Rewriter answers each node with a node of the same interface kind (rewrite_no_panic / rewrite_needs_contract)
+  ("Rewrite", "assert", "Rewrite(r, n.Dimensions).(Dimensions)"),  -- safe iff the Rewriter answers each node with a node of the same interface kind (rewrite_no_panic / rewrite_needs_contract)
+  ("Rewrite", "assert", "Rewrite(r, n.Expr).(Expr)"),  -- safe iff the Rewriter answers each node with a node of the same interface kind (rewrite_no_panic / rewrite_needs_contract)
+  ("Rewrite", "assert", "Rewrite(r, n.Fields).(Fields)"),  -- safe iff the Rewriter answers each node with a node of the same interface kind (rewrite_no_panic / rewrite_needs_contract)
+  ("Rewrite", "assert", "Rewrite(r, n.LHS).(Expr)"),  -- safe iff the Rewriter answers each node with a node of the same interface kind (rewrite_no_panic / rewrite_needs_contract)
+  ("Rewrite", "assert", "Rewrite(r, n.RHS).(Expr)"),  -- safe iff the Rewriter answers each node with a node of the same interface kind (rewrite_no_panic / rewrite_needs_contract)
+  ("Rewrite", "assert", "Rewrite(r, n.Sources).(Sources)"),  -- safe iff the Rewriter answers each node with a node of the same interface kind (rewrite_no_panic / rewrite_needs_contract)
+  ("Rewrite", "assert", "Rewrite(r, n.Statement).(*SelectStatement)"),  -- safe iff the Rewriter answers each node with a node of the same interface kind (rewrite_no_panic / rewrite_needs_contract)
+  ("Rewrite", "assert", "Rewrite(r, n.Statements).(Statements)"),  -- safe iff the Rewriter answers each node with a node of the same interface kind (rewrite_no_panic / rewrite_needs_contract)
+  ("Rewrite", "assert", "Rewrite(r, s).(Statement)"),  -- safe iff the Rewriter answers each node with a node of the same interface kind (rewrite_no_panic / rewrite_needs_contract)
+  ("Rewrite", "assert", "cond.(Expr)"),  -- safe iff the Rewriter answers each node with a node of the same interface kind (rewrite_no_panic / rewrite_needs_contract)
   ("SelectStatement.ColumnNames", "index", "columnNames[0]"),  -- columnNames has len(columnFields)+offset entries; Args[1:] guarded by len(f.Args) > 1 (7d5f959)
   ("SelectStatement.ColumnNames", "index", "columnNames[i+offset]"),  -- columnNames has len(columnFields)+offset entries; Args[1:] guarded by len(f.Args) > 1 (7d5f959)
   ("SelectStatement.ColumnNames", "slice", "f.Args[1:]"),  -- columnNames has len(columnFields)+offset entries; Args[1:] guarded by len(f.Args) > 1 (7d5f959)
@@ -68,8 +74,8 @@ def reviewedSites : List (String × String × String) := [
   ("SelectStatement.RewriteTimeFields", "slice", "s.Fields[:i]"),  -- i ranges over s.Fields
   ("SelectStatement.RewriteTimeFields", "slice", "s.Fields[i+1:]"),  -- i ranges over s.Fields
   ("SelectStatement.TimeAscending", "index", "s.SortFields[0]"),  -- guarded by len(s.SortFields) == 0 ||
-  ("Sources.MarshalBinary", "assert", "source.(*Measurement)"),  -- binary encoding, outside the operation set of C13; subquery sources are rejected by the type switch before
-  ("Sources.MarshalBinary", "index", "pb.Items[i]"),  -- binary encoding, outside the operation set of C13; subquery sources are rejected by the type switch before
+  ("Sources.MarshalBinary", "assert", "source.(*Measurement)"),  -- NOT safe: no type switch, no comma-ok; fires on a subquery source (marshalBinary_panics_iff; open finding)
+  ("Sources.MarshalBinary", "index", "pb.Items[i]"),  -- pb.Items made with len(a)
   ("Sources.UnmarshalBinary", "index", "(*a)[i]"),  -- index within make(len)
   ("TypeValuerEval.evalCallExprType", "index", "args[i]"),  -- args made with len(expr.Args)
   ("ValuerEval.Eval", "index", "args[i]"),  -- args made with len(expr.Args)
@@ -194,7 +200,8 @@ theorem normalize_no_panic (dims : List Expr) : (normalize dims).isPanic = false
 
 open Checked in
 /-- The inventoried sites that are checked primitives of a model, in inventory order. The entries
-written `s…` are the very values the primitives of `Model/OpsChecked.lean` carry; the four
+written `s…` are the very values the primitives of `Model/OpsChecked.lean`, `Model/RewriteChecked.lean`
+(`sRw…`) and `Model/SourcesCodecChecked.lean` (`sMarshal…`, `sUnmarshalSlot`) carry; the four
 `GROUP BY` sites are the `indexOrPanic` / `remOrPanic` calls of `Model/GroupBy.lean`, and `ep[0]` is
 the `emptyBase` failure of `Model/Priv.lean` (`requiredPrivileges_total`). -/
 def modelledSites : List Site := [
